@@ -57,6 +57,7 @@ type corpusCfg struct {
 	Name        string
 	Extra       []schema.Named // extra schemas
 	NoExtremes  bool
+	NoImports   bool
 }
 
 // buildCorpus generates, compiles and links the codec corpus.
@@ -116,15 +117,23 @@ func buildCorpus(r *core.Run, cfg corpusCfg) (*Corpus, error) {
 		n++
 		pends = append(pends, pend{&GenPkg{Name: fmt.Sprintf("c%04d", n), Label: nm.Name, S: nm.S, Opts: o}, nil, nm.Name})
 	}
-	for _, pd := range pends {
-		c.Pkgs = append(c.Pkgs, pd.p)
-	}
-	generateAll(febin, c.Pkgs)
 	mod, err := newMod(cfg.Name)
 	if err != nil {
 		return nil, err
 	}
 	c.mod = mod
+	if !cfg.NoImports {
+		// separate-mode import sets: records whose fields, elements and map values are types of
+		// another generated package
+		for _, ip := range importSets(mod, "c", n, cfg.Opts) {
+			n++
+			pends = append(pends, pend{ip, nil, ip.Label})
+		}
+	}
+	for _, pd := range pends {
+		c.Pkgs = append(c.Pkgs, pd.p)
+	}
+	generateAll(febin, c.Pkgs, mod)
 	if err := mod.compile(c.Pkgs); err != nil {
 		return nil, err
 	}
@@ -135,6 +144,9 @@ func buildCorpus(r *core.Run, cfg corpusCfg) (*Corpus, error) {
 			continue
 		}
 		ctx := &codec.Ctx{S: pd.p.S}
+		if pd.p.CtxS != nil {
+			ctx = &codec.Ctx{S: pd.p.CtxS}
+		}
 		if pd.cells != nil {
 			for i := range pd.cells {
 				cl := pd.cells[i]
